@@ -49,6 +49,10 @@ def be_value(E, st, zs):
         ln = z3.Length(zs)
         if z3.is_app(zs) and zs.decl().kind() == z3.Z3_OP_SEQ_EXTRACT:
             prefix = z3.SubSeq(zs.arg(0), zs.arg(1), z3.simplify(zs.arg(2) - 1))
+            # the last octet of an in-range slice, said directly (a true fact of seq.extract that z3 otherwise derives slowly)
+            base_, off_, cnt_ = zs.arg(0), zs.arg(1), zs.arg(2)
+            inr = z3.And(off_ >= 0, cnt_ >= 1, off_ + cnt_ <= z3.Length(base_))
+            st.fact(z3.Implies(inr, z3.And(ln == cnt_, zs[ln - 1] == base_[z3.simplify(off_ + cnt_ - 1)])))
         else:
             prefix = z3.SubSeq(zs, 0, ln - 1)
         st.fact(z3.Implies(ln >= 1, t == BE(prefix) * 256 + z3.BV2Int(zs[ln - 1])))
@@ -57,6 +61,11 @@ def be_value(E, st, zs):
             first = zs.arg(0)
             if z3.is_app(first) and first.decl().kind() == z3.Z3_OP_SEQ_UNIT:
                 rest = zs.arg(1) if zs.num_args() == 2 else z3.Concat(*[zs.arg(i) for i in range(1, zs.num_args())])
+                # (the tail's own instances too when it is again a cons: finite, the term gets smaller)
+                rest_is_cons = (z3.is_app(rest) and rest.decl().kind() == z3.Z3_OP_SEQ_CONCAT and z3.is_app(rest.arg(0))
+                                and rest.arg(0).decl().kind() == z3.Z3_OP_SEQ_UNIT)
+                if rest_is_cons:
+                    st.fact(be_value(E, st, rest) == BE(rest))
                 st.fact(t == ops.byte_int(E, st, first.arg(0)) * ops.pow2(E, st, 8 * seq_length(E, st, rest)) + BE(rest))
                 st.fact(BE(rest) >= 0)
                 if E.options.get('be_range'):
@@ -132,7 +141,7 @@ def _class_test(E, st, v, c):
             return py is float
         if isinstance(v, Ref):
             h = st.heap[v.oid]
-            if h.kind in ('list', 'acc'):
+            if h.kind in ('list', 'acc', 'pacc'):
                 return py is list
             if h.kind == 'dict':
                 return py is dict
@@ -199,7 +208,7 @@ def b_len(E, st, args, kw):
         h = st.heap[v.oid]
         if h.kind in ('list', 'dict'):
             return val(st, len(h.items))
-        if h.kind in ('acc', 'alist'):
+        if h.kind in ('acc', 'alist', 'pacc'):
             return val(st, h.items[0])
         if h.kind == 'bytearray':
             return b_len(E, st, [h.items], kw)
@@ -1267,7 +1276,52 @@ def m_index(E, st, base, a, k):
     return m_find(E, st, base, a, k, must=True)
 
 
+def pacc_joined(E, st, first, rest):
+    """first ++ rest of a prepend accumulator; with the contract option pacc_be also the ground instance of positional notation
+    be(first ++ rest) == be(first) * 256**len(rest) + be(rest)  (the fact every proof about such a list needs)"""
+    j = z3.Concat(zbytes(first), zbytes(rest))
+    if E.options.get('pacc_be'):
+        lr = z3.simplify(seq_length(E, st, zbytes(rest)))
+        lf = z3.simplify(seq_length(E, st, zbytes(first)))
+        p = z3.IntVal(256 ** lr.as_long()) if z3.is_int_value(lr) and lr.as_long() <= 4096 else ops.pow2(E, st, 8 * lr)
+        if z3.is_int_value(lf) and lf.as_long() <= 16:
+            bf = z3.IntVal(0)
+            for i in range(lf.as_long()):
+                bf = bf * 256 + ops.byte_int(E, st, zbytes(first)[i])
+        else:
+            bf = be_value(E, st, zbytes(first))
+        st.fact(be_value(E, st, j) == bf * p + be_value(E, st, zbytes(rest)))
+        st.fact(z3.Length(j) == lf + lr)
+    return mk_bytes(j)
+
+
+def m_lstrip(E, st, base, a, k):
+    """bytes.lstrip(b'\\x00'): uninterpreted, with the ground facts that define it: base == zeros ++ result, the result does not
+    start with a zero byte, and (positional notation) it has the same big-endian value"""
+    if len(a) != 1 or not (isinstance(a[0], bytes) and a[0] == b'\x00'):
+        raise Unsupported('lstrip other than lstrip(b"\\x00")')
+    if isinstance(base, bytes):
+        return val(st, base.lstrip(b'\x00'))
+    zs = zbytes(base)
+    t = LSTRIP0(zs)
+    ln, lt = z3.Length(zs), z3.Length(t)
+    st.fact(z3.And(lt >= 0, lt <= ln))
+    st.fact(zs == z3.Concat(ops.REP(z3.Unit(z3.BitVecVal(0, 8)), ln - lt), t))
+    st.fact(z3.Length(ops.REP(z3.Unit(z3.BitVecVal(0, 8)), ln - lt)) == ln - lt)
+    st.fact(z3.Or(lt == 0, t[0] != z3.BitVecVal(0, 8)))
+    st.fact(be_value(E, st, t) == be_value(E, st, zs))
+    return val(st, mk_bytes(t))
+
+
+LSTRIP0 = z3.Function('lstrip0', BYTES, BYTES)
+
+
 def m_join(E, st, base, a, k):
+    if isinstance(a[0], Ref) and st.heap[a[0].oid].kind == 'pacc':
+        if isinstance(base, bytes) and len(base) == 0:
+            _c, first, rest = st.heap[a[0].oid].items
+            return val(st, pacc_joined(E, st, first, rest))
+        raise Unsupported('join of a prepend-accumulator list with a non-empty or symbolic separator')
     if isinstance(a[0], Ref) and st.heap[a[0].oid].kind == 'acc':
         # accumulator abstraction (count, last, joined): exact only for the empty separator
         if isinstance(base, bytes) and len(base) == 0:
@@ -1328,7 +1382,7 @@ def m_strip_like(E, st, base, a, k):
 
 _BYTES_METHODS = {'startswith': m_startswith, 'endswith': m_endswith, 'find': m_find, 'rfind': m_rfind,
                   'index': m_index, 'join': m_join, 'hex': m_hex, 'decode': m_decode, 'tobytes': m_tobytes,
-                  'count': m_count}
+                  'count': m_count, 'lstrip': m_lstrip}
 
 
 def m_bit_length(E, st, base, a, k):
@@ -1513,6 +1567,22 @@ def container_attr(E, st, ref, h, attr):
             st.writes.append((ref.oid, '<items>'))
             return val(st, None)
         return BuiltinV('list.append', alm)
+    if h.kind == 'pacc':
+        # prepend accumulator (count, first, rest): only insert(0, x)
+        if attr != 'insert':
+            raise Unsupported('prepend-accumulator list .%s' % attr)
+
+        def pm(E, st, a, k):
+            h = st.heap[ref.oid]
+            if len(a) != 2 or k or not (isinstance(a[0], int) and not isinstance(a[0], bool) and a[0] == 0):
+                raise Unsupported('prepend-accumulator list: only insert(0, x)')
+            if not is_byteslike(a[1]):
+                raise Unsupported('prepend-accumulator list: insert of a non-bytes item')
+            cnt, first, rest = h.items
+            h.items = [mk_int(zint(cnt) + 1), a[1], pacc_joined(E, st, first, rest)]
+            st.writes.append((ref.oid, '<items>'))
+            return val(st, None)
+        return BuiltinV('list.insert', pm)
     if h.kind == 'acc':
         # append-only accumulator abstraction of a list of byte strings: items = [count, last, joined]
         if attr != 'append':
